@@ -150,7 +150,7 @@ class QPoly:
         """substitution that also rewrites inside atoms (inv/sqrt of polynomials containing substituted names)"""
         mm = dict(m)
         for s in a.symbols():
-            if s in ATOMS and s not in mm:
+            if s in ATOMS and s not in mm and ATOMS[s][0] != "fn":
                 kind, body = ATOMS[s]
                 if body.symbols_deep() & set(m):
                     nb = body.subs_deep(m)
@@ -160,9 +160,9 @@ class QPoly:
     def symbols_deep(a):
         out = set()
         for s in a.symbols():
-            if s in ATOMS:
+            if s in ATOMS and ATOMS[s][0] != "fn":
                 out |= ATOMS[s][1].symbols_deep()
-            else:
+            elif s not in ATOMS:
                 out.add(s)
         return out
 
@@ -186,7 +186,7 @@ class QPoly:
                 ds = None
                 if s == name:
                     ds = QPoly.const(1)
-                elif s in ATOMS and name in ATOMS[s][1].symbols_deep():
+                elif s in ATOMS and ATOMS[s][0] != "fn" and name in ATOMS[s][1].symbols_deep():
                     kind, body = ATOMS[s]
                     if kind == "inv":
                         ds = -(QPoly.var(s) ** 2) * body.diff(name)
@@ -245,6 +245,8 @@ def _simplify_atoms(t):
             if s not in ATOMS:
                 continue
             kind, body = ATOMS[s]
+            if kind == "fn":
+                continue
             if kind == "sqrt" and p >= 2:
                 d[s] = p % 2
                 extra = (extra if extra is not None else QPoly.const(1)) * body ** (p // 2)
@@ -316,7 +318,26 @@ def sqrt(b):
     return QPoly.var(name)
 
 
+def fn_atom(fname, c):
+    """the real number sin(c) / cos(c) / exp(c) for a rational constant c, as a symbol"""
+    c = Fraction(c)
+    name = f"{fname}({c})"
+    ATOMS.setdefault(name, ("fn", (fname, c)))
+    return QPoly.var(name)
+
+
 def atom_z3(s, env, side=None):
+    if s in ATOMS and ATOMS[s][0] == "fn":
+        import sympy as sp
+        from .s2z import Tr
+        fname, c = ATOMS[s][1]
+        f = {"sin": sp.sin, "cos": sp.cos, "exp": sp.exp}[fname]
+        t = Tr(sym=env, uf=True)
+        re, im = t.tr(f(sp.Rational(c.numerator, c.denominator)))
+        if side is not None:
+            for cns in t.constraints():
+                side.append(("fn", s, cns))
+        return re
     if s in ATOMS:
         kind, body = ATOMS[s]
         bz = body.to_z3(env, side)
@@ -334,6 +355,12 @@ def atom_z3(s, env, side=None):
 def atom_val(s, vals):
     if s in vals:
         return Fraction(vals[s])
+    if s in ATOMS and ATOMS[s][0] == "fn":
+        import mpmath
+        fname, c = ATOMS[s][1]
+        mpmath.mp.dps = 50
+        v = {"sin": mpmath.sin, "cos": mpmath.cos, "exp": mpmath.exp}[fname](mpmath.mpf(c.numerator) / c.denominator)
+        return Fraction(int(v * 10 ** 45), 10 ** 45)   # 45-digit approximation (replays with fn atoms compare with a tolerance)
     if s in ATOMS:
         kind, body = ATOMS[s]
         b = body.evalq(vals)
